@@ -157,6 +157,40 @@ Theorem C04_addr_tails_consistent : addr_tails_ok free_sigs addr_tails = true.
 Proof. vm_compute. reflexivity. Qed.
 Print Assumptions C04_addr_tails_consistent.
 
+(*    - selectors of the single children (seeded change C04-3: the ZoneIterativeData_t arm made to test the default NAME).
+        [child_names] (regenerated: the cgi_new_node rows of translators/c01_templates.py, with `X->name` resolved inside
+        the writer) says under which names each (parent, child label) is ever created -- fixed literals, or chosen by the
+        caller; [reader_name_tests] are the names cgi_read_* itself compares with.  For every single child (label, pointer
+        field) the goto table knows and some arm frees: a fixed-name kind is freed under its literal name(s) and under no
+        other pointer; a caller-named kind (BaseIterativeData_t, ZoneIterativeData_t, ParticleIterativeData_t) is freed by
+        the arm the LABEL alone selects; a by-name arm is otherwise right only for names the reader identifies the child
+        by; and every name any arm compares with is such a fixed or reader name. *)
+Theorem C04_single_children_selected_consistently :
+  singles_ok child_names reader_name_tests delete_table not_deletable goto_table = true.
+Proof. vm_compute. reflexivity. Qed.
+Print Assumptions C04_single_children_selected_consistently.
+
+(*      For ANY tables: the arm that frees a single child whose label arm exists fires for the node of that label whatever
+        the caller named it, and a node of any label with an unreserved name is dispatched as its label alone says (so
+        the arm fires for no other kind); with a reserved name the child is freed, refused, or the triple is listed by
+        [shadowed_singles] (each listed triple is replayed on the library by checks/C04.py). *)
+Theorem C04_single_dispatch_sound : forall dt nd pl nl ptr nn,
+  smem ptr (disp_single_lab dt nd pl nl) = true -> ~ In nn (reserved_names dt nd pl) ->
+  smem ptr (disp_single dt nd pl nl nn) = true.
+Proof. exact single_dispatch_sound. Qed.
+Print Assumptions C04_single_dispatch_sound.
+
+Theorem C04_single_dispatch_only : forall dt nd pl nl' nn,
+  ~ In nn (reserved_names dt nd pl) -> disp_single dt nd pl nl' nn = disp_single_lab dt nd pl nl'.
+Proof. exact single_dispatch_only. Qed.
+Print Assumptions C04_single_dispatch_only.
+
+Theorem C04_single_dispatch_reserved : forall cn rnt dt nd gt pl nl ptr nn,
+  In (pl, nl, ptr) (label_freed_singles cn rnt dt nd gt) -> ~ In (pl, nl, nn) (shadowed_singles cn rnt dt nd gt) ->
+  smem ptr (disp_single dt nd pl nl nn) = true \/ refused nd pl nl nn = true.
+Proof. exact single_dispatch_reserved. Qed.
+Print Assumptions C04_single_dispatch_reserved.
+
 (*    - a writer that may be handed a RE-USED slot (every X = cgi_*_address(CG_MODE_WRITE ...) writer: single children such
         as ReferenceState_t, ConvergenceHistory_t, FlowEquationSet_t and its models, RotatingCoordinates_t, units,
         exponents ..., and the node-context multi-sibling writers) sets every field of the struct again, or its count,
